@@ -584,7 +584,7 @@ pub fn run(tier: Tier) -> i32 {
         };
         let distinct_base: std::collections::BTreeSet<u64> = baselines.values().map(|w| hash_f64s(w)).collect();
         let mut counts = Vec::new();
-        for threads in [nthreads(), 4] {
+        for threads in [nthreads(), (nthreads() / 2).max(2)] {
             let model = HistModel { base: base.clone(), utts: utts.clone(), baselines: baselines.clone(), depth, transitions: Default::default(), outcomes: Default::default(), checked_last: Default::default(), monitor: monitor.clone() };
             let checker = model.checker().threads(threads).target_max_depth(depth + 2).spawn_bfs().join();
             counts.push(checker.unique_state_count());
